@@ -100,7 +100,7 @@ def real_only_case(ctx, rng):
             rep.fail('selects:%s:acted-set-differs' % name, case, {'selected_by_spec': flags, 'acted_on': ch})
 
 
-def two_step_case(ctx, rng):
+def two_step_case(ctx, rng, tick=None):
     """frame rule across steps: an earlier step acts on all resources, a later one on a selection; whatever the
     later one does, the resources it does not select leave the flow as they left the earlier step"""
     rep = ctx.report
@@ -133,8 +133,14 @@ def two_step_case(ctx, rng):
         'delete_resource': lambda: DF.delete_resource(sel),
         'filter_rows': lambda: DF.filter_rows(lambda r: False, resources=sel),
     }
-    f1 = rng.choice(sorted(firsts))
-    f2 = rng.choice(sorted(seconds))
+    if tick is None:
+        f1 = rng.choice(sorted(firsts))
+        f2 = rng.choice(sorted(seconds))
+    else:
+        # every (first, second) pair in turn
+        k1, k2 = sorted(firsts), sorted(seconds)
+        f1 = k1[tick % len(k1)]
+        f2 = k2[(tick // len(k1)) % len(k2)]
     case = {'first': f1, 'second': f2, 'args': S.jsonable_args(a), 'desc': desc, 'rows': canon._plain(rows)}
     before = S.run_real([firsts[f1]()], desc, rows)
     after = S.run_real([firsts[f1](), seconds[f2]()], desc, rows)
@@ -176,8 +182,8 @@ def run(ctx):
         for _ in range(ctx.n(500, 6000)):
             real_only_case(ctx, rng)
         rng3 = ctx.rng('two-step')
-        for _ in range(ctx.n(300, 4000)):
-            two_step_case(ctx, rng3)
+        for t in range(ctx.n(400, 4000)):
+            two_step_case(ctx, rng3, tick=t)
     return ctx.finish(probe=probe, search=P.search_from_disagreements(ctx, oracle, LAYER_A))
 
 
